@@ -231,7 +231,11 @@ class Contract(object):
         raises = g("raises", {})
         for name, cond in raises.items():
             self.raises.append((name, None, _parse(cond) if cond else None))
-        self.raises_exact = g("raises_exact", False)
+        rx = g("raises_exact", False)
+        # raises_exact: True = every class with a condition is raised IF AND ONLY IF its condition holds;
+        # a list of class names = only those; a condition on a class not listed is "raised ONLY IF"
+        self.raises_exact_names = None if rx is True else (set(rx) if rx else set())
+        self.raises_exact = bool(rx)
         self.trusted = g("trusted", None)  # reason string: contract assumed, body not verified
         self.ghost = {k: [_parse(x) for x in v] for k, v in g("ghost", {}).items()}
         self.properties = g("properties", [])
@@ -249,6 +253,10 @@ class Contract(object):
                     cls = getattr(builtins, name)
             out.append((name, cls, cond))
         self.raises = out
+
+
+def is_exact(contract, name):
+    return contract.raises_exact and (contract.raises_exact_names is None or name in contract.raises_exact_names)
 
 
 def _parse(s):
